@@ -3,7 +3,7 @@
 # prints one verdict line per (mutant, check); target checks are derived from the file name.
 cd "$(dirname "$0")/.."
 declare -A MAP=( [F1]="C03 C01" [F2]="C01" [F3]="C04" [F4]="C04" [F5]="C05" [F6]="C05" [F7]="C12" [F8]="C11" [F9]="C11"
-  [F10]="C11" [F11]="C07" [F12]="C08" [F13]="C08" [F14]="C08" [F15]="C10" [F16]="C10" [F17]="C17" [F18]="C19" [F19]="C13" [F20]="C12" [F21]="C13" [K4]="C10" )
+  [F10]="C11" [F11]="C07" [F12]="C08" [F13]="C08" [F14]="C08" [F15]="C10" [F16]="C10" [F17]="C17" [F18]="C19" [F19]="C13" [F20]="C12" [F21]="C13" [F22]="C10" [K4]="C10" )
 for p in mutants/*${1:-}*.patch; do
   b=$(basename "$p" .patch)
   if [[ $b =~ ^m_c([0-9][0-9])_ ]]; then ids="C${BASH_REMATCH[1]}"
